@@ -144,6 +144,26 @@ theorem C10_minmax (s o : Int) (hs : 0 < s) (xs : List Int) :
     simp only [maxScaled, minScaled, listMax, listMin, List.map_cons, Option.map_some,
       foldl_max_map s o hs, foldl_min_map s o hs, and_self]
 
+/-! ### the operators forwarded to the materialised array (tables generated from the source of the view classes) -/
+
+/-- every operator method of `ArrayView` evaluates `np.array(self) <op> other` with *its own* operator: the expression on
+    the view is, by the method's text, the same expression on the materialised array -/
+theorem C10_delegation_ops : ∀ p ∈ Gen.Views.arrayViewOps, pyOperator p.1 = some p.2 := by decide +kernel
+
+/-- all eleven operators of the property are delegated that way -/
+theorem C10_delegation_complete : ∀ m ∈ propertyOperators, m ∈ Gen.Views.arrayViewOps.map (·.1) := by decide +kernel
+
+/-- `view.max()` / `view.min()` of the generic view are the same methods of the materialised array -/
+theorem C10_delegation_minmax : Gen.Views.arrayViewMinMax = [("max", "max"), ("min", "min")] := by decide +kernel
+
+/-- the sub-field and scaled views route each rich comparison to `_do_comparison` with that same comparison, and the
+    sub-field view overrides exactly the four ordering comparisons (`==`, `!=` stay delegated) -/
+theorem C10_cmp_routing :
+    (∀ p ∈ Gen.Views.subFieldCmp, cmpName p.1 = some p.2) ∧ (∀ p ∈ Gen.Views.scaledCmp, cmpName p.1 = some p.2) ∧
+    (∀ m ∈ Gen.Views.subFieldCmp.map (·.1), m ∈ ["__lt__", "__le__", "__gt__", "__ge__"]) ∧
+    (∀ m ∈ ["__lt__", "__le__", "__gt__", "__ge__"], m ∈ Gen.Views.subFieldCmp.map (·.1)) := by
+  refine ⟨by decide +kernel, by decide +kernel, by decide +kernel, by decide +kernel⟩
+
 /-- non-vacuity -/
 example : cmpCol .lt 7 [0x00, 0x07, 0xFA] 8 = [true, true, true] := by decide
 example : cmpCol .ge 56 [0x00, 0x38, 0x10] 2 = [false, true, true] := by decide
